@@ -284,6 +284,30 @@ class C05(PropertyCheck):
         "repaired warm-start prologue (fixes/D4-fnnls-warm-start.patch) is what the model mirrors",
     ]
     search_budget_s = {"quick": 40, "thorough": 300}
+    modelled_functions = [
+        "autoarray/util/fnnls.py:fnnls_cholesky",
+        "autoarray/util/fnnls.py:fix_constraint_cholesky",
+        "autoarray/util/cholesky_funcs.py:cholinsertlast",
+        "autoarray/util/cholesky_funcs.py:choldeleteindexes",
+        "autoarray/util/cholesky_funcs.py:_cholupdate",
+        "autoarray/inversion/inversion/inversion_util.py:reconstruction_positive_negative_from",
+        "autoarray/inversion/inversion/inversion_util.py:reconstruction_positive_only_from",
+        "autoarray/inversion/inversion/inversion_util.py:mapped_reconstructed_data_via_mapping_matrix_from",
+        "autoarray/inversion/inversion/inversion_util.py:mapped_reconstructed_data_via_image_to_pix_unique_from",
+        "autoarray/inversion/inversion/abstract.py:AbstractInversion.reconstruction",
+        "autoarray/inversion/inversion/abstract.py:AbstractInversion.mapper_edge_pixel_list",
+        "autoarray/inversion/inversion/abstract.py:AbstractInversion.mapper_zero_pixel_list",
+        "autoarray/inversion/inversion/abstract.py:AbstractInversion.reconstruction_dict",
+        "autoarray/inversion/inversion/abstract.py:AbstractInversion.source_quantity_dict_from",
+        "autoarray/inversion/inversion/abstract.py:AbstractInversion.mapped_reconstructed_data",
+        "autoarray/inversion/inversion/abstract.py:AbstractInversion.curvature_reg_matrix",
+        "autoarray/inversion/inversion/imaging/mapping.py:InversionImagingMapping.mapped_reconstructed_data_dict",
+        "autoarray/inversion/inversion/imaging/w_tilde.py:InversionImagingWTilde.mapped_reconstructed_data_dict",
+        "autoarray/inversion/inversion/imaging/abstract.py:AbstractInversionImaging.operated_mapping_matrix_list",
+        "autoarray/inversion/inversion/settings.py:SettingsInversion.use_positive_only_solver",
+        "autoarray/inversion/inversion/settings.py:SettingsInversion.positive_only_uses_p_initial",
+        "autoarray/inversion/pixelization/mesh/mesh_util.py:rectangular_edge_pixel_list_from",
+    ]
     _tier = "quick"
 
     # ------------------------------------------------------------------ generation
